@@ -182,6 +182,8 @@ def path(eng, acc, task):
             Md = tn.dense_mat(ptn.MPO.identity(qd, L))
             goals = [(S(Md[i, j]), S(1 if i == j else 0)) for i in range(n) for j in range(n)]
             goals += [(S(Mr[i, j]), S(Mr[0, 0] if i == j else 0)) for i in range(n) for j in range(n)]
+            if S(Mr[0, 0]).is_zero():
+                fails.append('identity MPO with a symbolic (generically non-zero) scale is structurally the zero operator')
             fails += tn.invariant_fails(res, 'mpo', 'identity')
             if not fails:
                 fails += tn.sparsity_fails(eng, acc, res, 'mpo', 'identity')
@@ -300,6 +302,11 @@ def validate(seed, tier):
             inp = concrete.random_arith_input(rng, 'apply_operator', L, Dmax=3)
             inp['op'] = 'dense_forms'
             runner.concrete_check('arith', inp)
+            n += 1
+    # identity MPO with real, complex and integer scale factors and several physical dimensions (dtype mechanics, sampling)
+    for L in (1, 2, 3):
+        for scale in (1, 2, -0.5, 1j, 2 - 1j):
+            runner.concrete_check('arith', dict(op='identity', qd=[int(x) for x in rng.integers(-1, 2, size=int(rng.integers(1, 4)))], L=L, scale=scale))
             n += 1
     # shimmed path vs plain NumPy on the real code
     qd = np.zeros(2, dtype=int)
